@@ -32,12 +32,14 @@ let rec fill n (g : z list) (pat : z list) acc =
 exception Miss of string
 let table : (string, z * z list) Hashtbl.t = Hashtbl.create 64
 let full : (string, z list) Hashtbl.t = Hashtbl.create 64     (* untruncated renderings *)
-let kind_letter k = match int_of_z k with 1 -> "i" | 2 | 3 -> "q" | 4 -> "d" | 5 -> "c" | 6 -> "s" | 7 -> "p" | _ -> "?"
+(* integers are keyed by their size: "i" = 4 bytes, "q" = 8 bytes (long and long long alike) *)
+let kind_letter k a = match int_of_z k with
+  | 1 -> if List.length a = 4 then "i" else "q" | 4 -> "d" | 5 -> "c" | 6 -> "s" | 7 -> "p" | _ -> "?"
 let snp (f : z list) (k : z) (a : z list) (n : z) : z * z list =
-  let key = hex_of_bytes f ^ " " ^ kind_letter k ^ hex_of_bytes a ^ " " ^ string_of_z n in
+  let key = hex_of_bytes f ^ " " ^ kind_letter k a ^ hex_of_bytes a ^ " " ^ string_of_z n in
   match Hashtbl.find_opt table key with Some r -> r | None -> raise (Miss key)
 let render1 (f : z list) (k : z) (a : z list) : z list =
-  let key = hex_of_bytes f ^ " " ^ kind_letter k ^ hex_of_bytes a in
+  let key = hex_of_bytes f ^ " " ^ kind_letter k a ^ hex_of_bytes a in
   match Hashtbl.find_opt full key with Some r -> r | None -> raise (Miss key)
 
 let () =
@@ -78,6 +80,10 @@ let () =
             | OutOfBounds t -> pr ("oob " ^ string_of_z t)
           with Miss key -> pr ("oracle-miss " ^ key))
        | "V" :: fmt :: args ->
+         (* the hypothesis of C14_roundtrip_partial, evaluated by the extracted predicate: covered? record size? *)
+         let fb = bytes_of_hex fmt and al = List.map parse_arg args in
+         pr (Printf.sprintf "wf %d %d" (if wf_go fb PLit al then 1 else 0)
+               (List.length fb + 1 + List.length (ser_data fb PLit al)));
          (try
             let t = printf_spec render1 (bytes_of_hex fmt) PLit (List.map parse_arg args) in
             pr (Printf.sprintf "ref %d %s" (List.length t) (hex_of_bytes t))
